@@ -925,6 +925,32 @@ class G:
         self.dump(sc, "log")
         return self.finish(sc, "corpus_iterator", 0)
 
+    def v0_action_ids(self):
+        """exhaustive family "action ids": after k in 0..3 produced actions, combine_and / combine_or with (l, r) over
+        {0, k-1, k, k+1, u32::MAX}^2; model (HostV0.out_combine): accepted iff l < k and r < k, else trap"""
+        out = []
+        for k in range(4):
+            ids = sorted({0, max(k - 1, 0), k, k + 1, U32 - 1})
+            for op in ("combine_and", "combine_or"):
+                for l in ids:
+                    for r in ids:
+                        self.begin(0)
+                        self.stream, self.valid = ("valid" if l < k and r < k else "malformed"), True
+                        sc = self.base(0, "recv", pv=self.pick([4, 5, 6, 7]), pages=1)
+                        for i in range(k):
+                            a = ("accept", "simple_transfer", "send")[(i + k + l) % 3]
+                            if a == "accept":
+                                self.call(sc, a)
+                            elif a == "simple_transfer":
+                                self.call(sc, a, ADDR, self.pick([0, 1, U64 - 1]))
+                            else:
+                                self.call(sc, a, self.r.randrange(U64), self.pick([0, U64 - 1]), NAME_OK, 6, self.r.randrange(U64), DATA, self.pick([0, 1, 100]))
+                        self.call(sc, op, l, r)
+                        sc["fixed_energies"] = [AMPLE]
+                        sc["action_ids"] = (k, op, l, r)
+                        out.append(self.finish(sc, "v0_action_ids", k))
+        return out
+
     def scripts(self, n):
         out = []
         plan = [(self.v0_state, 14), (lambda: self.logs(0), 6), (lambda: self.logs(1), 6), (lambda: self.params(0), 7),
@@ -947,6 +973,9 @@ class G:
                   lambda: self.v1_stale_handles(True), lambda: self.v1_stale_handles(True),
                   lambda: self.v1_too_many_interrupts(8388608)) + (() if n <= 1000 else (lambda: self.v1_too_many_interrupts(8388607),)):
             sc = f()
+            sc["id"] = len(out)
+            out.append(sc)
+        for sc in self.v0_action_ids():
             sc["id"] = len(out)
             out.append(sc)
         return out
@@ -1140,6 +1169,16 @@ def direct_oracles(sc, e, r):
         for a in r["actions"] or []:
             if a[0] == "send" and len(a[5]) // 2 > maxp:
                 d.append("send action with a parameter of %d bytes (limit %d)" % (len(a[5]) // 2, maxp))
+        # action tree well-formedness: every And/Or node refers only to strictly smaller indices (no self/forward reference)
+        for i, a in enumerate(r["actions"] or []):
+            if a[0] in ("and", "or") and not (0 <= int(a[1]) < i and 0 <= int(a[2]) < i):
+                d.append("ill-formed action tree: node %d is %s(%s, %s) - children must be strictly smaller than the node's index"
+                         % (i, a[0], a[1], a[2]))
+    if sc.get("action_ids"):
+        k, op, l, r_ = sc["action_ids"]
+        want = "success" if l < k and r_ < k else "trap"
+        if r["out"] != want:
+            d.append("action ids: %s(%d, %d) after %d actions must %s, implementation: %s" % (op, l, r_, k, want, r["out"]))
     if sc["ver"] == 1:
         if sc["pv"] == 4 and r["rv"] is not None and len(r["rv"]) // 2 > 16384:
             d.append("return value of %d bytes under P4 (limit 16384)" % (len(r["rv"]) // 2))
